@@ -46,16 +46,16 @@ type stScenario struct {
 }
 
 type stResult struct {
-	Err        string `json:"err"`
-	ExitCode   uint32 `json:"exit_code"`
-	IsExit     bool   `json:"is_exit"`
-	Closed     bool   `json:"closed"`
-	Calls      int64  `json:"calls"`
-	After      int64  `json:"after_closed"`
-	Sites      int    `json:"sites"`
-	ElapsedNs  int64  `json:"elapsed_ns"`
-	WallMs     int64  `json:"wall_ms"`
-	Panic      string `json:"panic,omitempty"`
+	Err       string `json:"err"`
+	ExitCode  uint32 `json:"exit_code"`
+	IsExit    bool   `json:"is_exit"`
+	Closed    bool   `json:"closed"`
+	Calls     int64  `json:"calls"`
+	After     int64  `json:"after_closed"`
+	Sites     int    `json:"sites"`
+	ElapsedNs int64  `json:"elapsed_ns"`
+	WallMs    int64  `json:"wall_ms"`
+	Panic     string `json:"panic,omitempty"`
 }
 
 func runSynctestImpl(t *tape.Tape, cfg sim.Config) (res sim.Result) {
